@@ -9,18 +9,18 @@ from .. import seams
 from .. import templates as T
 from ..dsl import H, build, jsonable
 from ..evidence import Acc, account_sched
-from ..explorer import explore, run_once
+from ..explorer import HarnessError, explore, run_once
 
 PID = "C18"
 LEVEL = "model_checking"
-TECHNIQUE = "exhaustive exploration of run histories (every sequence of <=D runs over two graphs x two runner instances x sync/async x call forms) and of concurrent interleavings: two async runs on one runner under a virtual loop (all completion orders) and two SyncRunner runs on two real threads under a baton scheduler (all interleavings at node-call / superstep granularity)"
+TECHNIQUE = "exhaustive exploration of run histories (every sequence of <=D runs over two graphs x two runner instances x sync/async x call forms) and of concurrent interleavings: two async runs on one runner under a virtual loop (all completion orders) and two SyncRunner runs on two real threads under a baton scheduler (all interleavings at node-call / superstep granularity; iterative context bounding with a preemption point at every library-function entry / executed library line)"
 LEVEL_TEXT = (
     "graphs whose functions mutate their default-valued list/dict arguments (flat, nested to depth 2, renamed wrapper inputs) are run in every "
     "history and every interleaving inside the bounds; equal inputs must give equal results at every position, function __defaults__ must stay "
     "deep-equal to their initial snapshot, the caller's input mapping must be the same mapping with the same objects, and bound / provided objects "
     "must reach the function as the very same object."
 )
-LEVEL_NOTE = "thread exploration uses coarse scheduling points (node-function entry, superstep boundary); races inside one library call are not explored (DESIGN C18 S)"
+LEVEL_NOTE = "threads: (a) all interleavings at coarse points (node-function entry, superstep boundary); (b) preemption-bounded exploration at fine points: every entry into a library function (quick: <=1 preemption; thorough: <=2 for three configurations) and every executed library source line (thorough, <=1 preemption), on two distinct runners and on ONE shared SyncRunner"
 RULE = "histories to depth D (quick 2, thorough 3) over 24 run operations; async pairs: all completion orders; thread pairs: all interleavings (preemption-unbounded at the chosen granularity); states = scheduler frontiers; distinct_nontrivial = distinct histories / interleavings with >=2 runs"
 ASSUMPTIONS = ["mutation happens at function entry, the result is read after the suspension point (so a shared default is visible across interleaved runs)"]
 
@@ -49,7 +49,7 @@ XNAME = {"flat": "x", "nested": "xx", "flat@g": "out", "nested@go": "out"}
 class Env:
     """Two graphs, two runners of each kind, one harness; built once per explored execution."""
 
-    def __init__(self, chooser=None, suspend=False, baton=None):
+    def __init__(self, chooser=None, suspend=False, baton=None, kinds=("sync", "async"), names=None):
         from hypergraph import AsyncRunner, SyncRunner
 
         self.h = H(chooser, suspend=suspend)
@@ -77,7 +77,9 @@ class Env:
         self.g = {}
         self.funcs = {}
         for name, prog in graphs().items():
-            for kind in ("sync", "async"):
+            if names is not None and name not in names:
+                continue
+            for kind in kinds:
                 nodes = []
                 p = T.set_async(prog, kind == "async")
                 # distinct node ids per (graph, kind) build
@@ -370,6 +372,183 @@ def thread_pair(acc, pair, tier):
         acc.caps.append({"thread-pair": pair, "cap": 4000})
 
 
+# ---------------------------------------------------------------- threads, fine-grained (preemption-bounded, CHESS style)
+class FineBaton:
+    """Two real threads; a scheduling point is every entry into a library function (gran='call', sys.setprofile) or every
+    executed library source line (gran='line', sys.settrace).  Exactly one thread runs at a time; the running thread is
+    preempted exactly at the global point numbers in ``switches`` (iterative context bounding: len(switches) = number of
+    preemptions).  ``eligible`` records every point at which the other thread was still alive, i.e. every place where one
+    more preemption could be inserted."""
+
+    def __init__(self, src, start, switches, gran):
+        import os
+
+        self.src = os.path.join(src, "")
+        self.start = start
+        self.switches = set(switches)
+        self.gran = gran
+        self.sems = [threading.Semaphore(0), threading.Semaphore(0)]
+        self.main = threading.Semaphore(0)
+        self.alive = [True, True]
+        self.count = 0
+        self.eligible = []
+        self.taken = []
+
+    def tick(self, tid):
+        self.count += 1
+        c = self.count
+        if self.alive[1 - tid]:
+            self.eligible.append(c)
+            if c in self.switches:
+                self.taken.append(c)
+                self.sems[1 - tid].release()
+                self.sems[tid].acquire()
+
+    def _tracer(self, tid):
+        src = self.src
+        tick = self.tick
+        if self.gran == "call":
+
+            def prof(frame, event, arg):
+                if event == "call" and frame.f_code.co_filename.startswith(src):
+                    tick(tid)
+
+            return prof, None
+
+        def local(frame, event, arg):
+            if event == "line":
+                tick(tid)
+            return local
+
+        def glob(frame, event, arg):
+            if frame.f_code.co_filename.startswith(src):
+                return local
+            return None
+
+        return None, glob
+
+    def run(self, funcs):
+        import sys
+
+        results = [None, None]
+
+        def body(i):
+            self.sems[i].acquire()
+            prof, trace = self._tracer(i)
+            try:
+                if prof is not None:
+                    sys.setprofile(prof)
+                else:
+                    sys.settrace(trace)
+                try:
+                    results[i] = ("ok", funcs[i]())
+                finally:
+                    sys.setprofile(None)
+                    sys.settrace(None)
+            except BaseException as e:  # noqa: BLE001
+                results[i] = ("exc", e)
+            self.alive[i] = False
+            if self.alive[1 - i]:
+                self.sems[1 - i].release()
+            else:
+                self.main.release()
+
+        ts = [threading.Thread(target=body, args=(i,), daemon=True) for i in range(2)]
+        for t in ts:
+            t.start()
+        self.sems[self.start].release()
+        if not self.main.acquire(timeout=60):
+            raise HarnessError("fine baton: the two threads did not finish within 60 s")
+        for t in ts:
+            t.join(5)
+        return results
+
+
+FINE_CFG = [(pair, slots) for pair in (("flat", "flat"), ("nested", "nested"), ("flat", "nested")) for slots in (("A", "B"), ("A", "A"))]
+
+
+def fine_exec(cfg, start, switches, gran, ref):
+    """One execution of two sync runs on two threads under the given preemption schedule -> (views, violations, baton)."""
+    import os
+
+    pair, slots = cfg
+    baton = FineBaton(os.path.join(os.environ.get("VERIF_REPO", "/repo"), "src", "hypergraph"), start, switches, gran)
+    env = Env(None, kinds=("sync",), names=set(pair))
+    seams.install()
+    prev = seams.CURRENT
+    seams.CURRENT = env.h
+    calls = []
+    for gname in pair:
+        vals, kw, before = call_args(gname, "dict")
+        calls.append((gname, vals, before))
+    try:
+        funcs = [(lambda gn=gn, vals=vals, slot=slot: env.runners[(slot, "sync")].run(env.g[(gn, "sync")], vals, on_internal_override="ignore")) for (gn, vals, _), slot in zip(calls, slots)]
+        rs = baton.run(funcs)
+    finally:
+        seams.CURRENT = prev
+    vs = []
+    views = []
+    for (gn, vals, before), (st, r) in zip(calls, rs):
+        if st == "exc":
+            vs.append(("run-raised", f"threaded run of {gn} raised {type(r).__name__}: {str(r)[:150]}"))
+            views.append(None)
+        else:
+            views.append((r.status.value, tuple(sorted((k, _strip(v)) for k, v in r.values.items()))))
+    for gn, vals, before in calls:
+        vs += check_objects(env, gn, vals, before, len(env.recv))
+    vs += check_objects(env, pair[0], None, None, 0)
+    for gn, v in zip(pair, views):
+        if v is not None and v != ref[gn]:
+            vs.append(("concurrent-run-result-differs", f"threaded sync run of {gn} returned {jsonable(v)}, alone it returns {jsonable(ref[gn])}"))
+    return views, vs, baton
+
+
+def thread_fine(acc, cfg, gran, bound, part, nparts):
+    """Every schedule of the two threads with <= ``bound`` preemptions at ``gran`` granularity.  The space is split over shards by
+    the position of the FIRST preemption (position % nparts == part); shard 0 also runs the preemption-free schedules."""
+    pair, slots = cfg
+    ref = {}
+    for gname in set(pair):
+        ref[gname], _ = do_run(Env(), (gname, "A", "sync", "dict"))
+    starts = (0, 1) if (pair[0] != pair[1]) else (0,)  # identical calls on two fresh runners: starting with the other thread is the same schedule
+    for start in starts:
+        root_views, root_vs, root = fine_exec(cfg, start, (), gran, ref)
+        # replay determinism: the same schedule must give the same point count, else nondeterminism the harness does not own
+        again = fine_exec(cfg, start, (), gran, ref)[2]
+        if again.count != root.count or again.eligible != root.eligible:
+            raise HarnessError(f"fine thread schedule not reproducible: {root.count} vs {again.count} points")
+        if part == 0:
+            _fine_account(acc, cfg, gran, start, (), root_views, root_vs, root)
+        frontier = [((q,), None) for q in root.eligible if q % nparts == part]
+        while frontier:
+            sw, _ = frontier.pop()
+            views, vs, b = fine_exec(cfg, start, sw, gran, ref)
+            if list(b.taken) != list(sw):
+                raise HarnessError(f"fine thread schedule diverged: asked for preemptions at {sw}, taken {b.taken}")
+            _fine_account(acc, cfg, gran, start, sw, views, vs, b)
+            if len(sw) < bound:
+                frontier.extend(((sw + (q,)), None) for q in b.eligible if q > sw[-1])
+    acc.counters[f"fine-{gran}-points-per-schedule"] = max(acc.counters.get(f"fine-{gran}-points-per-schedule", 0), root.count)
+
+
+def _fine_account(acc, cfg, gran, start, sw, views, vs, b):
+    pair, slots = cfg
+    acc.evaluations += 1
+    acc.traces += 1
+    acc.transitions += len(sw) + 1
+    acc.key(("thread-fine", cfg, gran, start, sw))
+    acc.state(("thread-fine", cfg, gran, start, sw[:1]))
+    acc.counters[f"fine-{gran}-schedules-{len(sw)}-preemptions"] += 1
+    acc.outcomes[("thread-fine", pair, slots, tuple(views))] += 1
+    for sym, msg in vs:
+        acc.violation(
+            {"symptom": sym, "mode": "threads-fine", "same_runner": slots[0] == slots[1]},
+            {"kind": "thread-fine", "pair": list(pair), "slots": list(slots), "gran": gran, "start": start, "switches": list(sw)},
+            f"two SyncRunner runs {pair} on two threads (runners {slots}), {gran}-level preemptions at points {list(sw)} starting with thread {start}: {msg}",
+            size=len(sw),
+        )
+
+
 def mapping_node_identity(acc):
     """Bound values reach the node function as the very object that was bound - also when the graph is the inner graph of
     a MAPPING node (depth 1 and 2), for every clone setting, every item and repeated runs, both runners; and runner.map."""
@@ -437,7 +616,23 @@ def shards(tier, seed):
     out = [(tier, seed, "hist", i) for i in range(len(OPS))]
     out += [(tier, seed, "async", i) for i in range(len(PAIRS))]
     out += [(tier, seed, "threads", i) for i in range(len(PAIRS))]
+    for ci in range(len(FINE_CFG)):
+        for gran, bound, nparts in fine_plan(tier, ci):
+            out += [(tier, seed, "fine", (ci, gran, bound, part, nparts)) for part in range(nparts)]
     return out
+
+
+FINE_DEEP = [(("flat", "flat"), ("A", "A")), (("flat", "flat"), ("A", "B")), (("nested", "nested"), ("A", "A"))]
+
+
+def fine_plan(tier, ci):
+    """(granularity, preemption bound, shards) per configuration.  quick: one preemption at every library-function entry;
+    thorough: additionally one preemption at every executed library LINE, and two preemptions (call level) for FINE_DEEP."""
+    if tier == "quick":
+        return [("call", 1, 4)]
+    plan = [("line", 1, 8)]
+    plan.append(("call", 2, 64) if FINE_CFG[ci] in FINE_DEEP else ("call", 1, 4))
+    return plan
 
 
 def run_shard(shard):
@@ -461,6 +656,9 @@ def run_shard(shard):
             mapping_node_identity(acc)
         acc.key(("async-pair", PAIRS[i]))
         async_pair(acc, PAIRS[i], tier)
+    elif part == "fine":
+        ci, gran, bound, k, nparts = i
+        thread_fine(acc, FINE_CFG[ci], gran, bound, k, nparts)
     else:
         acc.key(("thread-pair", PAIRS[i]))
         thread_pair(acc, PAIRS[i], tier)
@@ -468,7 +666,17 @@ def run_shard(shard):
 
 
 def coverage_extra(acc, tier, seed):
-    return {"history_depth": 2 if tier == "quick" else 3, "operations": len(OPS), "deviation_bound_completed": 3 if tier == "quick" else "unbounded"}
+    return {
+        "history_depth": 2 if tier == "quick" else 3,
+        "operations": len(OPS),
+        "deviation_bound_completed": 3 if tier == "quick" else "unbounded",
+        "fine_thread_exploration": {
+            "configurations": [[list(p), list(sl)] for p, sl in FINE_CFG],
+            "plan": {f"{list(FINE_CFG[ci][0])}/{list(FINE_CFG[ci][1])}": [[g, f"<= {b} preemptions"] for g, b, _ in fine_plan(tier, ci)] for ci in range(len(FINE_CFG))},
+            "scheduling_point": "call = every entry into a function defined under src/hypergraph; line = every executed source line under src/hypergraph",
+            "preemption_bound_completed": {"call": 1 if tier == "quick" else "2 for FINE_DEEP configurations, 1 otherwise", "line": None if tier == "quick" else 1},
+        },
+    }
 
 
 def replay(rep):
@@ -479,6 +687,13 @@ def replay(rep):
         check_history(acc, [tuple(o) for o in rep["history"]])
     elif rep["kind"] == "async-pair":
         async_pair(acc, tuple(rep["pair"]), "quick")
+    elif rep["kind"] == "thread-fine":
+        cfg = (tuple(rep["pair"]), tuple(rep["slots"]))
+        ref = {}
+        for gname in set(cfg[0]):
+            ref[gname], _ = do_run(Env(), (gname, "A", "sync", "dict"))
+        views, vs, b = fine_exec(cfg, rep["start"], tuple(rep["switches"]), rep["gran"], ref)
+        return [f"{rep['gran']}-level preemptions at {rep['switches']}: {msg}" for _, msg in vs]
     else:
         thread_pair(acc, tuple(rep["pair"]), "quick")
     return [v["message"] for v in acc.violations.values()]
